@@ -51,9 +51,21 @@ static const char* WKT[] = {
     "POLYGON((0 0,100 0,100 100,0 100,0 0))", "LINESTRING(0 0,100 100)", "POINT(50 50)", "MULTIPOINT((1 1),(2 2),(3 3),(1 1))",
     "POLYGON((0 0,5 0,5 5,0 5,0 0))", "POLYGON((5 0,10 0,10 5,5 5,5 0))", "LINESTRING(-1 2,11 2)", "POINT(0 0)",
     "LINEARRING(2 2,3 2,3 3,2 2)", "LINEARRING EMPTY", "LINEARRING(0 0,10 0,10 10,0 10,0 0)", "CIRCULARSTRING(2 0,3 1,4 0)", "LINESTRING(4 0,5 5)",
-    "CIRCULARSTRING(0 0,5 5,10 0,5 -5,0 0)"
+    "CIRCULARSTRING(0 0,5 5,10 0,5 -5,0 0)",
+    // dense linework (filled in by dense_literals()): segments much shorter than the tolerances / distances of the boundary table,
+    // the kind of operand snapping, densifying and noding produce (GEOSSnap_r then inserts many snap vertices per segment)
+    "POINT EMPTY", "POINT EMPTY", "POINT EMPTY"
 };
 static const int NWKT = sizeof(WKT) / sizeof(WKT[0]);
+static void dense_literals() {
+    static std::string ring, comb, zig; char b[96];
+    ring = "POLYGON(("; for (int i = 0; i <= 64; i++) { double a = 6.283185307179586 * (i % 64) / 64.0, r = 5.0 + 0.05 * (i % 2);
+        snprintf(b, sizeof b, "%s%.6f %.6f", i ? "," : "", 5 + r * cos(a), 5 + r * sin(a)); ring += b; } ring += "))";
+    comb = "MULTILINESTRING("; for (int i = 0; i < 48; i++) { double x = 0.2 * i, y = 3 + 0.05 * (i % 5);
+        snprintf(b, sizeof b, "%s(%.6f %.6f,%.6f %.6f)", i ? "," : "", x, y, x + 0.1, y + 0.07); comb += b; } comb += ")";
+    zig = "LINESTRING("; for (int i = 0; i < 96; i++) { snprintf(b, sizeof b, "%s%.6f %.6f", i ? "," : "", 0.1 * i, 5 + 0.04 * (i % 3)); zig += b; } zig += ")";
+    WKT[NWKT - 3] = ring.c_str(); WKT[NWKT - 2] = comb.c_str(); WKT[NWKT - 1] = zig.c_str();
+}
 static const double DBL[] = {0.0, -0.0, 1.0, -1.0, 0.5, 2.0, 10.0, 100.0, 1e300, -1e300, NAN, INFINITY, -INFINITY, 5.0, 0.25, DBL_MAX};
 static const int INT[] = {0, 1, -1, 2, 3, 8, 16, 100, -100, INT_MAX, INT_MIN, 4};
 static const unsigned UNS[] = {0u, 1u, 2u, 3u, 10u, 1000u, 1000000u, 0x7fffffffu, 0xffffffffu, 4u};
@@ -446,6 +458,7 @@ static int run_program(const std::string& line, int fd) {
 }
 
 int main() {
+    dense_literals();
     std::string line;
     int total_s = getenv("C12_PROGRAM_TIMEOUT") ? atoi(getenv("C12_PROGRAM_TIMEOUT")) : 400;
     while (std::getline(std::cin, line)) {
